@@ -93,6 +93,12 @@ type Lexer struct {
 	line          int
 	column        int
 	errorRecovery *ErrorRecovery
+
+	// castAs / castType hold the input positions of the AS keyword and of the
+	// type name of every `cast(<expr> AS <type>)` (see findCastAs). They are
+	// fixed when the lexer is created, so save/restore need not track them.
+	castAs   map[int]bool
+	castType map[int]bool
 }
 
 func NewLexer(input string) *Lexer {
@@ -102,6 +108,7 @@ func NewLexer(input string) *Lexer {
 		column: 0,
 	}
 	l.readChar()
+	l.findCastAs()
 	return l
 }
 
@@ -136,7 +143,81 @@ func (l *Lexer) restore(s lexerSnapshot) {
 	l.ch = s.ch
 }
 
+// NextToken returns the next token. The documented form
+// `cast(<expr> AS <type>)` is delivered as `cast(<expr>, '<type>')`, the form
+// every expression evaluator behind the parser understands: the AS keyword
+// becomes a comma and the type name a lower-case string literal.
 func (l *Lexer) NextToken() Token {
+	tok := l.scanToken()
+	if l.castAs != nil {
+		switch {
+		case tok.Type == TokenAS && l.castAs[tok.Pos]:
+			tok.Type, tok.Value = TokenComma, ","
+		case l.castType[tok.Pos] && isTypeNameToken(tok):
+			tok.Type, tok.Value = TokenString, "'"+strings.ToLower(tok.Value)+"'"
+		}
+	}
+	return tok
+}
+
+// isTypeNameToken reports whether tok is a bare word (an identifier or a
+// keyword such as TIMESTAMP), which is how a type name is written.
+func isTypeNameToken(tok Token) bool {
+	if tok.Value == "" || tok.Type == TokenString || tok.Type == TokenQuotedIdent {
+		return false
+	}
+	for i := 0; i < len(tok.Value); i++ {
+		if !isLetter(tok.Value[i]) && !isDigit(tok.Value[i]) {
+			return false
+		}
+	}
+	return isLetter(tok.Value[0])
+}
+
+// findCastAs scans the input once for `cast ( <expr> AS <type> )`, in any
+// letter case: an AS directly inside the parentheses of a call of cast that is
+// followed by a bare type name and the closing parenthesis. An AS anywhere else
+// (column aliases, also inside nested parentheses) is left alone.
+func (l *Lexer) findCastAs() {
+	if !strings.Contains(strings.ToLower(l.input), "cast") {
+		return
+	}
+	scan := &Lexer{input: l.input, line: 1}
+	scan.readChar()
+	var isCastCall []bool // one entry per open parenthesis
+	var prev Token
+	for {
+		tok := scan.scanToken()
+		switch tok.Type {
+		case TokenEOF:
+			return
+		case TokenLParen:
+			isCastCall = append(isCastCall, prev.Type == TokenIdent && strings.EqualFold(prev.Value, "cast"))
+		case TokenRParen:
+			if len(isCastCall) > 0 {
+				isCastCall = isCastCall[:len(isCastCall)-1]
+			}
+		case TokenAS:
+			if len(isCastCall) == 0 || !isCastCall[len(isCastCall)-1] || prev.Type == TokenLParen {
+				break
+			}
+			snap := scan.save()
+			typ := scan.scanToken()
+			closing := scan.scanToken()
+			scan.restore(snap)
+			if isTypeNameToken(typ) && closing.Type == TokenRParen {
+				if l.castAs == nil {
+					l.castAs, l.castType = map[int]bool{}, map[int]bool{}
+				}
+				l.castAs[tok.Pos] = true
+				l.castType[typ.Pos] = true
+			}
+		}
+		prev = tok
+	}
+}
+
+func (l *Lexer) scanToken() Token {
 	l.skipWhitespace()
 
 	// 记录token开始位置
@@ -239,7 +320,7 @@ func (l *Lexer) NextToken() Token {
 			l.errorRecovery.AddError(err)
 		}
 		l.readChar()
-		return l.NextToken() // 跳过无效字符，继续解析
+		return l.scanToken() // 跳过无效字符，继续解析
 	case '\'':
 		return l.readStringToken(tokenPos, tokenLine, tokenColumn)
 	case '"':
@@ -275,7 +356,7 @@ func (l *Lexer) NextToken() Token {
 			l.errorRecovery.AddError(err)
 		}
 		l.readChar()
-		return l.NextToken() // 跳过无效字符，继续解析
+		return l.scanToken() // 跳过无效字符，继续解析
 	}
 
 	return Token{Type: TokenEOF, Pos: tokenPos, Line: tokenLine, Column: tokenColumn}
